@@ -113,6 +113,10 @@ def build_system(case, atoms, ff):
                 attrs['insertion_code'] = a['res'][4]
             if a['element'] is not None:
                 attrs['element'] = a['element']
+            if mol.get('stale') is not None:
+                # what an earlier MakeBonds run (in another system) leaves on its output atoms
+                attrs['mol_idx'] = mol['stale']
+                attrs['_res_serial'] = mol['stale']
             m.add_node(k * mol['keystep'] + mol['key0'], **attrs)
         keys = list(m.nodes)
         for i, j in mol['pre_edges']:
@@ -294,6 +298,10 @@ def run(case):
         ids.setdefault(key[1:], set()).add(key[0])
     if any(len(v) > 1 for v in ids.values()):
         classes.add('residue-identity-shared-across-molecules')
+    stale = [m.get('stale') for m in case['mols']]
+    if any(len(v) > 1 for v in ids.values()) and len([v for v in stale if v is not None]) >= 2 and \
+            len(set(v for v in stale if v is not None)) < len([v for v in stale if v is not None]):
+        classes.add('shared-identity-and-equal-stale-mol_idx')
     if case['fudge'] < 1:
         classes.add('fudge<1')
     if any(a['element'] == 'Se' for a in atoms):
@@ -334,6 +342,7 @@ def strategy(tier):
         'residues': st.lists(residue, min_size=1, max_size=max_res),
         'pre_edges': st.lists(st.tuples(st.integers(0, 30), st.integers(0, 30)).map(list), max_size=3),
         'key0': st.sampled_from([0, 0, 5]), 'keystep': st.sampled_from([1, 1, 3]),
+        'stale': st.sampled_from([None, None, None, 0, 0, 1, 7]),
     })
     block = st.fixed_dictionaries({
         'atoms': st.lists(st.sampled_from(ATOM_NAMES), min_size=2, max_size=6, unique=True),
